@@ -228,6 +228,17 @@ def execute(spec):
             values.append((u, fv))
             if multi:
                 continue
+            if other is not None and qi % 3 == 0:
+                # the neighbouring law is asked for the very intervals this one is about to be asked for: what it computes
+                # (or remembers) for them must not be handed to this one
+                try:
+                    other.prob_mw(_interval(g, L, fv))
+                    if discrete:
+                        other.prob_mw(_interval(g, L, fv - 1))
+                except SimAbort:
+                    raise
+                except Exception:
+                    pass
             # the same law as prob_mw reports
             try:
                 if discrete:
